@@ -1,6 +1,7 @@
 package props
 
 import (
+	"strings"
 	"testing"
 
 	"github.com/db47h/decimal"
@@ -61,6 +62,46 @@ func genC20(t *rapid.T) C20Case {
 				c.W[n-1] = c.W[n-1] % []uint64{10, 1000, 1000000000, h.Base / 10, h.Base / 100}[rapid.IntRange(0, 4).Draw(t, "topd")]
 			}
 		}
+		stray := false
+		if rapid.IntRange(0, 7).Draw(t, "stray") == 0 {
+			// a rounding-sensitive head (from the rounding-pattern generator, at the receiver's precision), nothing but
+			// zeros below it, and one stray digit somewhere in a long tail - the first or last digit of a word as often
+			// as not: the only thing that makes the value inexact is a single digit many words away
+			n = rapid.IntRange(3, maxW).Draw(t, "sn")
+			p := rapid.IntRange(1, 19*n-20).Draw(t, "sp")
+			if rapid.Bool().Draw(t, "spsmall") {
+				p = rapid.IntRange(1, 60).Draw(t, "sps")
+				if p > 19*n-20 {
+					p = 19*n - 20
+				}
+			}
+			head := h.GenRoundDigits(t, "sh", p)
+			if len(head) > p+1 {
+				head = head[:p+1] // keep at most the rounding digit
+			}
+			ds := []byte(head + strings.Repeat("0", 19*n-len(head)))
+			pos := rapid.IntRange(len(head), 19*n-1).Draw(t, "spos")
+			switch rapid.IntRange(0, 3).Draw(t, "salign") {
+			case 0:
+				pos -= pos % 19 // first digit of a word
+			case 1:
+				pos += 18 - pos%19 // last digit of a word
+			}
+			if pos < len(head) {
+				pos = len(head)
+			}
+			if pos > 19*n-1 {
+				pos = 19*n - 1
+			}
+			ds[pos] = byte('1' + rapid.IntRange(0, 8).Draw(t, "sdig"))
+			w := h.DigitsToWords(string(ds))
+			c.W = make([]uint64, len(w))
+			for i := range w {
+				c.W[i] = uint64(w[i])
+			}
+			c.P = uint(p)
+			stray = true
+		}
 		switch rapid.IntRange(0, 5).Draw(t, "expcls") {
 		case 0, 1:
 			c.Exp = h.GenExp(t, "exp")
@@ -77,7 +118,12 @@ func genC20(t *rapid.T) C20Case {
 			c.Exp = rapid.Int64().Draw(t, "exp64")
 		}
 		digits := 19 * n
-		switch rapid.IntRange(0, 5).Draw(t, "pcls") {
+		pcls := rapid.IntRange(0, 5).Draw(t, "pcls")
+		if stray {
+			pcls = -1 // precision chosen with the head
+		}
+		switch pcls {
+		case -1:
 		case 0:
 			c.P = 0
 		case 1, 2:
@@ -122,6 +168,9 @@ func genC20(t *rapid.T) C20Case {
 }
 
 func checkC20(c C20Case, o *h.Obs) *h.Fail {
+	if c.Kind == "grid:giant-slice" {
+		return h.Failf("replay-by-grid", "this case is enumerated by TestC20Grid (0.9 GB slice); re-run the check to reproduce")
+	}
 	o.Label(c.Kind)
 	recv := func() *decimal.Decimal {
 		if c.Z != nil {
@@ -345,3 +394,33 @@ var propC20 = &h.Prop[C20Case]{ID: "C20", Rule: ruleC20, Gen: genC20, Check: che
 
 func TestC20(t *testing.T)       { propC20.Search(t) }
 func TestC20Replay(t *testing.T) { propC20.Replay(t) }
+
+// TestC20Grid: one slice so long that its leading zeros are worth more than 2^31 digits (113 million words,
+// 0.9 GB), with an exponent above 2^32 that brings the value back into range: the exponent correction must be
+// carried in 64 bits all the way. Far beyond what the generated slices reach, hence enumerated.
+func TestC20Grid(t *testing.T) {
+	defer h.WriteStats("C20")
+	const L = 113025460
+	exp := int64(model.MaxExp) - 5 + 19*L - 1
+	mant := make([]decimal.Word, L)
+	mant[0] = 7
+	z := new(decimal.Decimal).SetPrec(34)
+	z.SetBitsExp(mant, exp)
+	got := h.Read(z)
+	o := &h.Obs{}
+	o.Label("giant-slice")
+	o.NonTrivial()
+	c := C20Case{Kind: "grid:giant-slice", Exp: exp, P: 34}
+	if want := model.MkFinite(false, "7", model.MaxExp-5); got.Malformed != "" || !got.Val().Equal(want) || got.Acc != 0 || got.Prec != 34 {
+		h.ReportGridFail(t, "C20", h.Failf("value", "SetBitsExp([7, 0 x %d], %d) = %v, want %v exactly", L-1, exp, got, want), mustJSON(c))
+	}
+	// and one word longer: the value leaves the range at the bottom
+	mant[0] = 7 // (SetBitsExp took the slice over and normalised its low word in place)
+	z = new(decimal.Decimal).SetPrec(34)
+	z.SetBitsExp(mant, int64(model.MinExp)+19*L-3)
+	if got := h.Read(z); got.Malformed != "" || got.Form != model.Zero || got.Neg || model.Acc(got.Acc) != model.Below {
+		h.ReportGridFail(t, "C20", h.Failf("value", "SetBitsExp([7, 0 x %d], MinExp+19L-3) = %v, want +0 (Below)", L-1, got), mustJSON(c))
+	}
+	h.RecordGrid("C20", o, c)
+	h.AddExtra("C20", "giant_slice_cases", 2)
+}
